@@ -214,8 +214,13 @@ def run_one(case, fl, dest):
     if applied:
         r["applied_full"], r["applied_tree"] = applied_obs(p)
     else:
-        wt2 = WorkingTree.open(p)
-        r["unchanged"] = (tc.disk_obs(p), tree_obs(wt2)) == before and not tc.leftovers(p, fl)
+        after = (tc.disk_obs(p), tree_obs(WorkingTree.open(p)))
+        r["unchanged"] = after == before and not tc.leftovers(p, fl)
+        if not r["unchanged"]:
+            def nox(entries):
+                return [dict(e, x=False) for e in entries]
+            only_x = after[0] == before[0] and nox(after[1]) == nox(before[1]) and not tc.leftovers(p, fl)
+            r["sites"]["changed"] = "executable-bit-not-restored" if only_x else "tree-changed"
     return r
 
 
@@ -265,7 +270,7 @@ def classify(row, failed):
         return "resolve-does-not-terminate:%s" % fl
     if "applies_cleanly" in failed:
         return "apply-raises-%s:%s:%s" % (r["apply"].split(":")[1], r["sites"].get("apply", "?"),
-                                          "tree-changed" if not r["unchanged"] else "tree-unchanged")
+                                          r["sites"].get("changed", "tree-changed") if not r["unchanged"] else "tree-unchanged")
     if "atomic" in failed:
         return "tree-changed-without-apply:%s:%s" % (fl, r["resolve"])
     if "preview_readable" in failed:
